@@ -375,9 +375,15 @@ static off64_t _GD_GetBOF(DIRFILE *restrict D, gd_entry_t *restrict E,
 
   switch (E->field_type) {
     case GD_RAW_ENTRY:
-      bof = D->fragment[E->fragment_index].frame_offset;
-      *spf = E->EN(raw,spf);
-      *ds = 0;
+      /* spf may be a scalar field code which is still unresolved */
+      if (!(E->flags & GD_EN_CALC))
+        _GD_CalculateEntry(D, E, 1);
+
+      if (!D->error) {
+        bof = D->fragment[E->fragment_index].frame_offset;
+        *spf = E->EN(raw,spf);
+        *ds = 0;
+      }
       break;
     case GD_BIT_ENTRY:
     case GD_SBIT_ENTRY:
